@@ -125,3 +125,112 @@ Proof.
   - unfold u64. apply Rle_trans with (bpow radix2 (-3)); [apply bpow_le; lia | simpl; lra].
 Qed.
 
+
+(* ---- C14 / C15 tolerance tiers: how far the float computation of a window position or of a frame index (before
+        its final floor / ceil / rint) can be from the exact value.  The correspondence checkers (Check/C14.v: closeb,
+        tol_ok; Check/C15.v: tol_ok) accept a band of 2^-44 resp. 2^-40 relative to the operand magnitudes; the bounds
+        below, with u = 2^-53, are 2^7 resp. 2^10 times smaller, so the unchanged IEEE computation always falls inside
+        the accepted band (no false alarm from rounding), while an index off by one frame does not. ---- *)
+Section Tolerance.
+Variables u eta : R.
+Hypothesis Hu : 0 <= u.
+Hypothesis Hu8 : u <= / 8.
+Hypothesis Heta : 0 <= eta.
+Variable rnd : R -> R.
+Hypothesis rnd_spec : forall x, exists e t, Rabs e <= u /\ Rabs t <= eta /\ rnd x = x * (1 + e) + t.
+
+(* a window position  start + i * step  as the float code computes it *)
+Theorem position_error start step i :
+  Rabs (rnd (start + rnd (i * step)) - (start + i * step))
+  <= 4 * u * (Rabs start + Rabs (i * step)) + 3 * eta.
+Proof.
+  destruct (rnd_spec (i * step)) as [e1 [t1 [He1 [Ht1 E1]]]]. rewrite E1.
+  destruct (rnd_spec (start + (i * step * (1 + e1) + t1))) as [e2 [t2 [He2 [Ht2 E2]]]]. rewrite E2.
+  set (A := Rabs start). set (B := Rabs (i * step)).
+  assert (HA : - A <= start <= A) by (apply Rabs_bounds, Rle_refl).
+  assert (HB : - B <= i * step <= B) by (apply Rabs_bounds, Rle_refl).
+  assert (0 <= A) by apply Rabs_pos. assert (0 <= B) by apply Rabs_pos.
+  set (m1 := i * step * e1). assert (B1 : Rabs m1 <= B * u) by (apply Rabs_mul_le; [apply Rle_refl | exact He1]).
+  set (Y := start + (i * step + m1 + t1)).
+  assert (BY : Rabs Y <= A + B + B * u + eta).
+  { apply Rabs_bounds in B1, Ht1. apply Rabs_le. unfold Y. lra. }
+  set (m2 := Y * e2). assert (B2 : Rabs m2 <= (A + B + B * u + eta) * u) by (apply Rabs_mul_le; assumption).
+  replace ((start + (i * step * (1 + e1) + t1)) * (1 + e2) + t2 - (start + i * step)) with (m1 + t1 + m2 + t2)
+    by (subst m2 Y m1; ring).
+  apply Rabs_bounds in B1, B2, Ht1, Ht2. apply Rabs_le.
+  assert (0 <= B * u) by nra. assert (0 <= A * u) by nra. assert (B * u * u <= B * u / 8) by nra.
+  assert (eta * u <= eta / 8) by nra. lra.
+Qed.
+
+(* a frame index before rounding:  ((x1 - x2) - x3) / step  as the float code computes it
+   (loose start: focus.start - duration - start; strict end: focus.end - duration - start;
+    centre: t - start - duration / 2; with x3 = 0 the two-operand forms) *)
+Theorem quotient_error x1 x2 x3 step : 0 < step ->
+  Rabs (rnd (rnd (rnd (x1 - x2) - x3) / step) - (x1 - x2 - x3) / step)
+  <= 8 * u * (Rabs x1 + Rabs x2 + Rabs x3) / step + 8 * eta * (/ step + 1).
+Proof.
+  intro Hs.
+  destruct (rnd_spec (x1 - x2)) as [e1 [t1 [He1 [Ht1 E1]]]]. rewrite E1.
+  set (d1 := (x1 - x2) * (1 + e1) + t1).
+  destruct (rnd_spec (d1 - x3)) as [e2 [t2 [He2 [Ht2 E2]]]]. rewrite E2.
+  set (d2 := (d1 - x3) * (1 + e2) + t2).
+  destruct (rnd_spec (d2 / step)) as [e3 [t3 [He3 [Ht3 E3]]]]. rewrite E3.
+  set (S := Rabs x1 + Rabs x2 + Rabs x3).
+  assert (H1 : - Rabs x1 <= x1 <= Rabs x1) by (apply Rabs_bounds, Rle_refl).
+  assert (H2 : - Rabs x2 <= x2 <= Rabs x2) by (apply Rabs_bounds, Rle_refl).
+  assert (H3 : - Rabs x3 <= x3 <= Rabs x3) by (apply Rabs_bounds, Rle_refl).
+  assert (0 <= Rabs x1) by apply Rabs_pos. assert (0 <= Rabs x2) by apply Rabs_pos. assert (0 <= Rabs x3) by apply Rabs_pos.
+  assert (HS : 0 <= S) by (unfold S; lra).
+  set (m1 := (x1 - x2) * e1).
+  assert (B1 : Rabs m1 <= (Rabs x1 + Rabs x2) * u) by (apply Rabs_mul_le; [apply Rabs_le; lra | exact He1]).
+  assert (Bd1 : Rabs (d1 - x3) <= S + (Rabs x1 + Rabs x2) * u + eta).
+  { apply Rabs_bounds in B1, Ht1. apply Rabs_le. unfold d1, S. fold m1.
+    replace ((x1 - x2) * (1 + e1) + t1 - x3) with (x1 - x2 - x3 + m1 + t1) by (subst m1; ring). lra. }
+  set (m2 := (d1 - x3) * e2).
+  assert (B2 : Rabs m2 <= (S + (Rabs x1 + Rabs x2) * u + eta) * u) by (apply Rabs_mul_le; assumption).
+  set (n := x1 - x2 - x3).
+  assert (Ed2 : d2 = n + (m1 + t1 + m2 + t2)) by (subst d2 m2 n m1 d1; ring).
+  set (dd := m1 + t1 + m2 + t2).
+  assert (Bdd : Rabs dd <= 3 * u * S + 3 * eta).
+  { apply Rabs_bounds in B1, B2, Ht1, Ht2. apply Rabs_le. unfold dd.
+    assert (0 <= S * u) by nra. assert (S * u * u <= S * u / 8) by nra.
+    assert ((Rabs x1 + Rabs x2) * u <= S * u) by (unfold S; nra).
+    assert (0 <= (Rabs x1 + Rabs x2) * u) by nra.
+    assert ((Rabs x1 + Rabs x2) * u * u <= S * u / 8) by nra.
+    assert (eta * u <= eta / 8) by nra. unfold S in *. nra. }
+  assert (Bd2 : Rabs d2 <= S + 3 * u * S + 3 * eta).
+  { apply Rabs_bounds in Bdd. apply Rabs_le. rewrite Ed2. fold dd. unfold n. unfold S in *. lra. }
+  assert (Is : 0 < / step) by now apply Rinv_0_lt_compat.
+  set (m3 := d2 / step * e3).
+  assert (B3 : Rabs m3 <= (S + 3 * u * S + 3 * eta) * / step * u).
+  { apply Rabs_mul_le; [|exact He3]. unfold Rdiv. apply Rabs_mul_le; [exact Bd2 | rewrite Rabs_pos_eq; lra]. }
+  replace (d2 / step * (1 + e3) + t3 - n / step) with (dd * / step + m3 + t3) by (subst m3; rewrite Ed2; fold dd; field; lra).
+  assert (B4 : Rabs (dd * / step) <= (3 * u * S + 3 * eta) * / step) by (apply Rabs_mul_le; [exact Bdd | rewrite Rabs_pos_eq; lra]).
+  apply Rabs_bounds in B3, B4, Ht3. apply Rabs_le.
+  set (w := / step) in *. unfold Rdiv. fold w.
+  assert (0 <= S * w) by nra. assert (0 <= u * (S * w)) by nra. assert (0 <= eta * w) by nra.
+  assert (u * (u * (S * w)) <= u * (S * w) / 8) by nra.
+  assert (u * (eta * w) <= eta * w / 8) by nra.
+  nra.
+Qed.
+End Tolerance.
+
+Theorem binary64_position_error start step i :
+  Rabs (rnd64 (start + rnd64 (i * step)) - (start + i * step)) <= 4 * u64 * (Rabs start + Rabs (i * step)) + 3 * eta64.
+Proof.
+  apply (position_error u64 eta64).
+  - unfold u64. apply bpow_ge_0.
+  - unfold u64. apply Rle_trans with (bpow radix2 (-3)); [apply bpow_le; lia | simpl; lra].
+  - unfold eta64. apply bpow_ge_0.
+  - apply rnd64_spec.
+Qed.
+Theorem binary64_quotient_error x1 x2 x3 step : 0 < step ->
+  Rabs (rnd64 (rnd64 (rnd64 (x1 - x2) - x3) / step) - (x1 - x2 - x3) / step)
+  <= 8 * u64 * (Rabs x1 + Rabs x2 + Rabs x3) / step + 8 * eta64 * (/ step + 1).
+Proof.
+  apply (quotient_error u64 eta64).
+  - unfold u64. apply bpow_ge_0.
+  - unfold u64. apply Rle_trans with (bpow radix2 (-3)); [apply bpow_le; lia | simpl; lra].
+  - unfold eta64. apply bpow_ge_0.
+  - apply rnd64_spec.
+Qed.
